@@ -313,6 +313,36 @@ example : numAtoms 0 (dense [((0 : Int), (1 : ℚ)), (3, 5)]) ++ denAtoms 1 (den
   rw [compile_iterates_terms _ _ _ (by simp) (by simp) (by simp) (by simp)]
   simp [numAtoms, denAtoms]
   norm_num
+/-- C04.4 / `causal_runs` / C04.8: hypotheses satisfiable -/
+example : ∃ ys, call [((0 : Int), (1 : ℚ)), (2, 3)] [(0, 2), (1, 1)] Mem.none 0 [1, 2] = .ok ys :=
+  causal_runs _ _ _ _ _ (by simp) (by simp [coefAt])
+example : ∃ num' den', normalise [((1 : Int), (1 : ℚ)), (2, 3)] [(1, 2), (3, 1)] = .ok (num', den')
+    ∧ minKey den' = some 0 ∧ (∀ k, coefAt num' k = coefAt [((1 : Int), (1 : ℚ)), (2, 3)] (k + 1))
+    ∧ (∀ k, coefAt den' k = coefAt [((1 : Int), (2 : ℚ)), (3, 1)] (k + 1)) :=
+  normalise_spec _ _ 1 (by decide +kernel)
+/-- memories: list of sufficient length, short list (left padded), callable, endless generator -/
+example : memoryOf (0 : Rat) 2 (Mem.iter [5, 6, 7]) = [5, 6] := by decide +kernel
+example : memoryOf (9 : Rat) 3 (Mem.iter [5, 6]) = [9, 5, 6] := by decide +kernel
+example : memoryOf (0 : Rat) 2 (Mem.callable fun n => List.replicate n 4) = [4, 4] := by decide +kernel
+example : memoryOf (0 : ℚ) 2 (Mem.gen fun i => (i : ℚ) + 1)
+    = memoryOf 0 2 (Mem.iter ((List.range 5).map fun i => (i : ℚ) + 1)) :=
+  generator_memory 0 2 5 _ (by omega)
+/-- C04.6' with a memory longer than the order: hypotheses satisfiable -/
+example := call_given_memory [((0 : Int), (1 : Rat)), (1, 1)] [(0, 1), (1, -1)] [3, 99] 0 [1, 5]
+  (by decide +kernel) (by decide +kernel) (by decide +kernel) (by decide +kernel)
+/-- C04.7: the power-series identity on a concrete recursive filter -/
+example : PowerSeries.coeff 2 (seriesOf [(2 : ℚ), 1] *
+      seriesOf (evalIR (compile [1, 3] [2, 1] 0) (memoryOf 0 1 Mem.none) 0 [1, 5, -4]))
+    = PowerSeries.coeff 2 (seriesOf [1, 3] * seriesOf [1, 5, -4]) :=
+  ps_identity [1, 3] [1] 2 (by norm_num) [1, 5, -4] 2 (by simp)
+/-- C04.10 on a dictionary with a duplicate power, a stored zero and a common delay 2:
+the `ZFilter` docstring filter again -/
+example : filterCall [((3 : Int), (1 : Rat)), (2, 5), (2, 1), (4, 0)] [(2, 1), (3, -1)] (Mem.iter [3]) 0
+    [1, 5, -4, -7, 9] = .ok [4, 10, 11, 0, 2] := by decide +kernel
+example : specCall [((3 : Int), (1 : Rat)), (2, 5), (2, 1), (4, 0)] [(2, 1), (3, -1)] (Mem.iter [3]) 0
+    [1, 5, -4, -7, 9] = .ok [4, 10, 11, 0, 2] := by decide +kernel
+example : filterCall [((0 : Int), (1 : Rat))] [(0, 0), (1, 0)] Mem.none 0 [1] = .error .valueError := by
+  decide +kernel
 /-- the hypotheses of C04.1 / C04.1' / C04.6 are satisfiable on a non-trivial filter -/
 example : DiffEq [1, -1, 0, 3] (2 : ℚ) [1, -1, 0, 5] 0 [1, 2, 3, 4] [2, 4, 6]
     (evalIR (compile [1, -1, 0, 3] [2, 1, -1, 0, 5] (0 : ℚ)) [1, 2, 3, 4] 0 [2, 4, 6]) :=
